@@ -183,7 +183,7 @@ def run(ctx):
     # ---- leg 1: the writer design has the property (small runs exhaustively; encoding theorem over all short strings)
     base = {"P": "MC", "na": "97, 60", "nl": 1, "fa": "47", "fl": 1, "ma": "38", "ml": 0, "pa": "34", "pl": 1, "lines": "3",
             "mg": 2, "mt": 2, "mf": 2, "mp": 0, "el": 3 if quick else 4}
-    mcs = [("structure", dict(base, mt=2 if quick else 3)),
+    mcs = [("structure", dict(base, mt=2) if quick else dict(base, mt=3, mf=1)),
            ("output", dict(base, mt=1, mf=0, mp=1, pl=0)),
            ("strings", dict(base, na="97, 60, 38", nl=1 if quick else 2, fa="47, 34", ma="38, 10", ml=1, lines="3, 12", mg=1, mt=1, mf=1, mp=1))]
     ctx.notes["model"] = []
@@ -219,7 +219,7 @@ def run(ctx):
                 nontriv.add(json.dumps(e))
 
     # ---- leg 3: seeded random runs of up to 30 groups, every printable character, XML specials dense in every string
-    nexec, mg, mt = (40, 10, 4) if quick else (300, 30, 6)
+    nexec, mg, mt = (40, 10, 4) if quick else (200, 30, 6)
     execs = [random_exec(ctx.rng, mg, mt) for _ in range(nexec)]
     ctx.sample({"source": "seeded random driver", "execution": ["\t".join(map(str, l)) for l in execs[0][:14]]})
     conform(ctx, "random", execs, run_harness, "Trace_JUnit", tcfg, pcfg, key_fn, tlc_timeout=1500)
